@@ -170,6 +170,11 @@ def handle : Handler := fun j a => do
         | .publish l =>
           if e.ok && l.any (fun h => h != master && recovery.contains h) && dcsFail != "recovery" then
             a := a.violationSig "C11:marked-host-in-published-active-list" s!"published {l}, marked {recovery} in {j.compress}"
+        -- a replica the iteration itself takes out of the acknowledging set (not listed, or held back by the download-lag
+        -- gate) is not made an acker in the same iteration
+        | .ssSetSlave h =>
+          if e.ok && ch.becomeInactive.contains h then
+            a := a.violationSig "C04:semi-sync-enabled-on-a-replica-the-same-iteration-holds-back" s!"{h} in {j.compress}"
         | _ => pure ()
         let nb := !cfg.semiSync || invB cfg w'
         if okA && !na then
